@@ -25,7 +25,7 @@ PROPS["C10"] = {
                     "aergo-lib memorydb is a correct key-value store"],
     "units": [
         {"pkg": "pkg/trie", "run": "^TestC10TrieModel$",
-         "quick": {"checks": 1500, "shards": 8, "timeout": 240},
+         "quick": {"checks": 1500, "shards": 8, "timeout": 600},
          "thorough": {"checks": 20000, "shards": 14, "timeout": 1500}},
         {"pkg": "pkg/trie", "run": "^TestC10Exhaustive$",
          "quick": {"shards": 6, "timeout": 240, "env": {"VERIF_C10_DEPTH": 2, "VERIF_C10_ALPHA": 3}},
@@ -52,11 +52,11 @@ PROPS["C11"] = {
     "assumptions": ["sha256 collision resistance", "verifier instance = trie.NewTrie(root, hasher, nil) as a light client would build it"],
     "units": [
         {"pkg": "pkg/trie", "run": "^TestC11Proofs$",
-         "quick": {"checks": 400, "shards": 8, "timeout": 240},
+         "quick": {"checks": 400, "shards": 8, "timeout": 600},
          "thorough": {"checks": 6000, "shards": 16, "timeout": 1500}},
-        {"pkg": "pkg/trie", "run": "^TestC11Regression$", "all": {"shards": 1, "timeout": 60}},
+        {"pkg": "pkg/trie", "run": "^TestC11Regression$", "all": {"shards": 1, "timeout": 300}},
         {"pkg": "state/statedb", "run": "^TestC11StateProofs$",
-         "quick": {"checks": 500, "shards": 6, "timeout": 240},
+         "quick": {"checks": 500, "shards": 6, "timeout": 600},
          "thorough": {"checks": 8000, "shards": 12, "timeout": 1500}},
     ],
 }
@@ -77,7 +77,7 @@ PROPS["C12"] = {
     "assumptions": ["aergo-lib memorydb is a correct key-value store"],
     "units": [
         {"pkg": "state", "run": "^TestC12Snapshots$",
-         "quick": {"checks": 1500, "shards": 8, "timeout": 240},
+         "quick": {"checks": 1500, "shards": 8, "timeout": 600},
          "thorough": {"checks": 25000, "shards": 12, "timeout": 1500}},
         {"pkg": "state", "run": "^TestC12Exhaustive$",
          "quick": {"shards": 6, "timeout": 240, "env": {"VERIF_C12_DEPTH": 4}},
@@ -101,12 +101,12 @@ PROPS["C19"] = {
              "ids with non-empty magic and consensus, hardfork cases with an actual change of one fork height; distinct = distinct (value, mutation)."),
     "assumptions": ["sha256 collision resistance"],
     "units": [
-        {"pkg": "types", "run": "^TestC19(BlockID|TxID|TxRoot)$", "quick": {"checks": 3000, "shards": 3, "timeout": 240}, "thorough": {"checks": 60000, "shards": 6, "timeout": 1500}},
-        {"pkg": "types", "run": "^TestC19Receipts$", "quick": {"checks": 1500, "shards": 4, "timeout": 240}, "thorough": {"checks": 40000, "shards": 8, "timeout": 1500}},
-        {"pkg": "types", "run": "^TestC19ChainID$", "quick": {"checks": 2000, "shards": 2, "timeout": 240}, "thorough": {"checks": 40000, "shards": 4, "timeout": 1500}},
-        {"pkg": "types", "run": "^TestC19Regression$", "all": {"shards": 1, "timeout": 60}},
-        {"pkg": "account/key", "run": "^TestC19TxSignDigest$", "quick": {"checks": 600, "shards": 3, "timeout": 240}, "thorough": {"checks": 10000, "shards": 6, "timeout": 1500}},
-        {"pkg": "config", "run": "^TestC19HardforkVersion$", "quick": {"checks": 3000, "shards": 2, "timeout": 240}, "thorough": {"checks": 60000, "shards": 4, "timeout": 1500}},
+        {"pkg": "types", "run": "^TestC19(BlockID|TxID|TxRoot)$", "quick": {"checks": 3000, "shards": 3, "timeout": 600}, "thorough": {"checks": 60000, "shards": 6, "timeout": 1500}},
+        {"pkg": "types", "run": "^TestC19Receipts$", "quick": {"checks": 1500, "shards": 4, "timeout": 600}, "thorough": {"checks": 40000, "shards": 8, "timeout": 1500}},
+        {"pkg": "types", "run": "^TestC19ChainID$", "quick": {"checks": 2000, "shards": 2, "timeout": 600}, "thorough": {"checks": 40000, "shards": 4, "timeout": 1500}},
+        {"pkg": "types", "run": "^TestC19Regression$", "all": {"shards": 1, "timeout": 300}},
+        {"pkg": "account/key", "run": "^TestC19TxSignDigest$", "quick": {"checks": 600, "shards": 3, "timeout": 600}, "thorough": {"checks": 10000, "shards": 6, "timeout": 1500}},
+        {"pkg": "config", "run": "^TestC19HardforkVersion$", "quick": {"checks": 3000, "shards": 2, "timeout": 600}, "thorough": {"checks": 60000, "shards": 4, "timeout": 1500}},
     ],
 }
 
@@ -129,10 +129,10 @@ PROPS["C09"] = {
          "quick": {"shards": 8, "timeout": 240, "env": {"VERIF_C09_MAXN": 100}},
          "thorough": {"shards": 16, "timeout": 900, "env": {"VERIF_C09_MAXN": 100}}},
         {"pkg": "consensus/impl/dpos/slot", "run": "^TestC09SlotRandom$",
-         "quick": {"checks": 20000, "shards": 2, "timeout": 240},
+         "quick": {"checks": 20000, "shards": 2, "timeout": 600},
          "thorough": {"checks": 400000, "shards": 6, "timeout": 900}},
         {"pkg": "verifx/c08", "run": "^TestC09Blocks$",
-         "quick": {"checks": 400, "shards": 8, "timeout": 400},
+         "quick": {"checks": 400, "shards": 8, "timeout": 700},
          "thorough": {"checks": 8000, "shards": 16, "timeout": 1700}},
     ],
 }
@@ -152,7 +152,7 @@ PROPS["C01"] = {
     "assumptions": ["stub VM stands in for LuaJIT", "memorydb is a correct store"],
     "units": [
         {"pkg": "verifx/c01", "run": "^TestC01Conservation$",
-         "quick": {"checks": 300, "shards": 10, "timeout": 300},
+         "quick": {"checks": 300, "shards": 10, "timeout": 600},
          "thorough": {"checks": 6000, "shards": 16, "timeout": 1700}},
     ],
 }
@@ -193,7 +193,7 @@ PROPS["C05"] = {
     "assumptions": _TREE_ASSUME,
     "units": [
         {"pkg": "verifx/tree", "run": "^TestC05Arrivals$",
-         "quick": {"checks": 120, "shards": 12, "timeout": 400},
+         "quick": {"checks": 120, "shards": 12, "timeout": 700},
          "thorough": {"checks": 2500, "shards": 16, "timeout": 1700}},
     ],
 }
@@ -210,9 +210,9 @@ PROPS["C07"] = {
     "assumptions": _TREE_ASSUME,
     "units": [
         {"pkg": "verifx/tree", "run": "^TestC07ForkChoice$",
-         "quick": {"checks": 120, "shards": 12, "timeout": 400},
+         "quick": {"checks": 120, "shards": 12, "timeout": 700},
          "thorough": {"checks": 2500, "shards": 16, "timeout": 1700}},
-        {"pkg": "verifx/tree", "run": "^TestC07KnownValidPrefix$", "all": {"shards": 1, "timeout": 120}},
+        {"pkg": "verifx/tree", "run": "^TestC07KnownValidPrefix$", "all": {"shards": 1, "timeout": 300}},
     ],
 }
 
@@ -228,12 +228,12 @@ PROPS["C03"] = {
     "assumptions": _TREE_ASSUME,
     "units": [
         {"pkg": "verifx/c03", "run": "^TestC03TxAtomicity$",
-         "quick": {"checks": 80, "shards": 12, "timeout": 400},
+         "quick": {"checks": 80, "shards": 12, "timeout": 700},
          "thorough": {"checks": 1500, "shards": 16, "timeout": 1700}},
         {"pkg": "verifx/tree", "run": "^TestC03InvalidBlocks$",
-         "quick": {"checks": 100, "shards": 10, "timeout": 400},
+         "quick": {"checks": 100, "shards": 10, "timeout": 700},
          "thorough": {"checks": 2000, "shards": 16, "timeout": 1700}},
-        {"pkg": "verifx/tree", "run": "^TestC03RegressionFailedReorg$", "all": {"shards": 1, "timeout": 120}},
+        {"pkg": "verifx/tree", "run": "^TestC03RegressionFailedReorg$", "all": {"shards": 1, "timeout": 300}},
     ],
 }
 
@@ -249,9 +249,9 @@ PROPS["C04"] = {
     "assumptions": _TREE_ASSUME + ["secp256k1 ECDSA (btcec) and sha256 are trusted"],
     "units": [
         {"pkg": "verifx/tree", "run": "^TestC04ForgedBlocks$",
-         "quick": {"checks": 100, "shards": 10, "timeout": 400},
+         "quick": {"checks": 100, "shards": 10, "timeout": 700},
          "thorough": {"checks": 2000, "shards": 16, "timeout": 1700}},
-        {"pkg": "verifx/tree", "run": "^TestC04RegressionStaleVerify$", "all": {"shards": 1, "timeout": 120}},
+        {"pkg": "verifx/tree", "run": "^TestC04RegressionStaleVerify$", "all": {"shards": 1, "timeout": 300}},
     ],
 }
 
@@ -268,9 +268,9 @@ PROPS["C15"] = {
     "assumptions": ["stub VM not involved (governance is native Go)", "memorydb is a correct store"],
     "units": [
         {"pkg": "verifx/c15", "run": "^TestC15Governance$",
-         "quick": {"checks": 150, "shards": 12, "timeout": 400},
+         "quick": {"checks": 150, "shards": 12, "timeout": 700},
          "thorough": {"checks": 4000, "shards": 16, "timeout": 1700}},
-        {"pkg": "verifx/c15", "run": "^TestC15KnownPreV2Vote$", "all": {"shards": 1, "timeout": 120}},
+        {"pkg": "verifx/c15", "run": "^TestC15KnownPreV2Vote$", "all": {"shards": 1, "timeout": 300}},
     ],
 }
 
@@ -286,9 +286,9 @@ PROPS["C14"] = {
     "assumptions": ["stub VM stands in for LuaJIT"],
     "units": [
         {"pkg": "verifx/c14", "run": "^TestC14Admission$",
-         "quick": {"checks": 250, "shards": 12, "timeout": 400},
+         "quick": {"checks": 250, "shards": 12, "timeout": 700},
          "thorough": {"checks": 6000, "shards": 16, "timeout": 1700}},
-        {"pkg": "verifx/c14", "run": "^TestC14KnownOddCandidate$", "all": {"shards": 1, "timeout": 120}},
+        {"pkg": "verifx/c14", "run": "^TestC14KnownOddCandidate$", "all": {"shards": 1, "timeout": 300}},
     ],
 }
 
@@ -304,7 +304,7 @@ PROPS["C13"] = {
     "assumptions": ["stub VM not involved (transfers only)", "permissive test consensus for the node"],
     "units": [
         {"pkg": "verifx/c13", "run": "^TestC13Pool$",
-         "quick": {"checks": 120, "shards": 12, "timeout": 400},
+         "quick": {"checks": 120, "shards": 12, "timeout": 700},
          "thorough": {"checks": 2500, "shards": 16, "timeout": 1700}},
     ],
 }
@@ -321,10 +321,10 @@ PROPS["C16"] = {
     "assumptions": ["memorydb persists on Close and reloads on open (aergo-lib)", "etcd raft MemoryStorage/Status are correct"],
     "units": [
         {"pkg": "consensus/impl/raftv2", "run": "^TestC16Wal$",
-         "quick": {"checks": 100, "shards": 10, "timeout": 400},
+         "quick": {"checks": 100, "shards": 10, "timeout": 700},
          "thorough": {"checks": 2000, "shards": 14, "timeout": 1700}},
         {"pkg": "consensus/impl/raftv2", "run": "^TestC16Membership$",
-         "quick": {"checks": 1500, "shards": 2, "timeout": 300},
+         "quick": {"checks": 1500, "shards": 2, "timeout": 600},
          "thorough": {"checks": 40000, "shards": 2, "timeout": 1700}},
     ],
 }
@@ -358,10 +358,10 @@ PROPS["C18"] = {
     "rule": ("a case = one generated sequence / stream / status / delivery order; non-trivial: (a) a sequence of >=2 messages or a payload > 1 KiB, a structured hostile stream; (b) a status differing in exactly one field; (c) a forged variant processed before the genuine block. Distinct by full description."),
     "assumptions": ["bufio.Reader default buffer (4 KiB) is part of the allocation slack"],
     "units": [
-        {"pkg": "p2p/v030", "links": {"../test": "p2p/test"}, "run": "^TestC18Framing$", "quick": {"checks": 1500, "shards": 3, "timeout": 300}, "thorough": {"checks": 40000, "shards": 6, "timeout": 1500}},
-        {"pkg": "p2p/v030", "links": {"../test": "p2p/test"}, "run": "^TestC18ReadBounded$", "quick": {"checks": 3000, "shards": 2, "timeout": 300}, "thorough": {"checks": 60000, "shards": 4, "timeout": 1500}},
-        {"pkg": "p2p/v200", "links": {"../test": "p2p/test"}, "run": "^TestC18Handshake$", "quick": {"checks": 1500, "shards": 3, "timeout": 300}, "thorough": {"checks": 40000, "shards": 6, "timeout": 1500}},
-        {"pkg": "verifx/tree", "run": "^TestC18BlockIdentity$", "quick": {"checks": 120, "shards": 6, "timeout": 400}, "thorough": {"checks": 3000, "shards": 12, "timeout": 1700}},
+        {"pkg": "p2p/v030", "links": {"../test": "p2p/test"}, "run": "^TestC18Framing$", "quick": {"checks": 1500, "shards": 3, "timeout": 600}, "thorough": {"checks": 40000, "shards": 6, "timeout": 1500}},
+        {"pkg": "p2p/v030", "links": {"../test": "p2p/test"}, "run": "^TestC18ReadBounded$", "quick": {"checks": 3000, "shards": 2, "timeout": 600}, "thorough": {"checks": 60000, "shards": 4, "timeout": 1500}},
+        {"pkg": "p2p/v200", "links": {"../test": "p2p/test"}, "run": "^TestC18Handshake$", "quick": {"checks": 1500, "shards": 3, "timeout": 600}, "thorough": {"checks": 40000, "shards": 6, "timeout": 1500}},
+        {"pkg": "verifx/tree", "run": "^TestC18BlockIdentity$", "quick": {"checks": 120, "shards": 6, "timeout": 700}, "thorough": {"checks": 3000, "shards": 12, "timeout": 1700}},
     ],
 }
 
@@ -379,7 +379,7 @@ PROPS["C06"] = {
         {"pkg": "verifx/tree", "run": "^TestC06CrashPoints$",
          "quick": {"checks": 40, "shards": 12, "timeout": 500},
          "thorough": {"checks": 500, "shards": 16, "timeout": 1700}},
-        {"pkg": "verifx/tree", "run": "^TestC06KnownUnadoptedBranch$", "all": {"shards": 1, "timeout": 120}},
+        {"pkg": "verifx/tree", "run": "^TestC06KnownUnadoptedBranch$", "all": {"shards": 1, "timeout": 300}},
     ],
 }
 
@@ -413,7 +413,7 @@ PROPS["C20"] = {
     "assumptions": ["the pure-Go stand-ins for cgo symbols (c20/cshim.go) are behaviour-free", "the transliteration only renames C.x selectors and drops functions listed in tools/overlay.py"],
     "units": [
         {"pkg": "contract", "run": "^TestC20ReadOnlyGuards$",
-         "quick": {"checks": 1500, "shards": 6, "timeout": 400},
+         "quick": {"checks": 1500, "shards": 6, "timeout": 700},
          "thorough": {"checks": 30000, "shards": 12, "timeout": 1700}},
     ],
 }
